@@ -252,7 +252,8 @@ def gen_export(rng, with_rsu=True, hostile=True, n=(3, 25), start_year=(2016, 20
             gap = rng.choice([0, 0, 1, 2, 3, 7])
             vest = D - dt.timedelta(days=gap)
             fmv = Fraction(rng.randint(100, 500000), 10000)
-            rows.append(dict(base, Action="Stock Plan Activity", Quantity=str(q), Description="RSU " + desc))
+            rows.append(dict(base, Action="Stock Plan Activity", Quantity=str(q), Description="RSU " + desc,
+                             Price=rng.choice(["", "", "", "$777.77", "0.01"])))
             det = {"VestDate": spell_date(rng, vest), "VestFairMarketValue": spell_amount(rng, fmv)} if rng.random() < 0.6 \
                 else {"FairMarketValuePrice": spell_amount(rng, fmv)}
             parent = vest if "FairMarketValuePrice" in det else D
